@@ -434,7 +434,9 @@ def analyse(prog, rep, thorough):
         lo_t, hi_t = RANGES[l.dtype]
         for dname, dom, ordered in DOMAINS:
             # the m<=M side condition is meaningful only when the effective min/max are the two inputs
-            eff_min, eff_max = l.subst[pmin], l.subst[pmax]
+            # what has to be stored is given by the ARGUMENTS (min, max), whatever the code does to its variables;
+            # only the documented convention fit_dtype(max < 0) re-reads the pair as [max, max]
+            eff_min, eff_max = "m", "M"
             if dname == "negative-max-convention":
                 # whatever the code does with its variables, the value to store is maxval itself
                 eff_min = eff_max = "M"
